@@ -441,7 +441,8 @@ def random_schedule(rng: random.Random):
     qtotal = sum(sum(J["ds"]) + 3 for J in jobs if J["e"] == QID)
     longest = max([sum(J["ds"]) for J in jobs] + [0])
     hmax = max([h["t"] + h["d"] for h in holds] + [0])
-    H = max(last + 7 + longest, hmax, last + 7 + 3 + 9) + qtotal + 9
+    latsum = sum(w["x"] for w in wins if w["k"] == "lat")     # stacked latency windows add up
+    H = max(last + 7 + longest, hmax, last + 7 + 3 + latsum) + qtotal + 9
     H += (-H) % 3
     return {"C": C, "L0": 3, "H": H, "wins": wins, "groups": groups, "jobs": jobs, "probes": probes,
             "holds": holds}
